@@ -168,7 +168,22 @@ def gen_module(rng, depth=3, n_axioms=None, n_proofs=None, subs=0):
     proofs = [gen_pf(rng, depth, axioms) for _ in range(n_proofs)]
     claims = [conc(pf) for pf in proofs]
     submods = [gen_module(rng, 1, rng.choice((0, 1, 2)), 0, 0) for _ in range(subs)]
+    submods = diamond(rng, submods, axioms)
     return ('module', axioms, claims, proofs, submods)
+
+
+def diamond(rng, submods, axioms):
+    """family: the same axiom published more than once in the gamma phase — a base module imported along two paths (the
+    submodule repeated), or a submodule that re-declares one of the importing module's axioms; the importing module's own
+    axioms, which its proofs load, are published after the duplicates"""
+    r = rng.random()
+    if submods and r < 0.3:
+        k = rng.randrange(len(submods))
+        if submods[k][1]:
+            submods = submods + [submods[k]]
+    elif axioms and r < 0.45:
+        submods = submods + [('module', [rng.choice(axioms)] + ([rng.choice(axioms)] if rng.random() < 0.3 else []), [], [], [])]
+    return submods
 
 
 def module_to_s(m):
@@ -297,4 +312,5 @@ def pf_module(rng, subs=0):
                 continue
     claims = [conc(pf) for pf in proofs]
     submods = [('module', [pf_pat(rng, 1) for _ in range(rng.choice((0, 1)))], [], [], []) for _ in range(subs)]
+    submods = diamond(rng, submods, axioms)
     return ('module', axioms, claims, proofs, submods)
